@@ -184,6 +184,7 @@ func genDedup(r *vlib.R, tier string, emit func(string)) {
 		emit(fmt.Sprintf("dedup burst ok%d %d %d %d leader 0", 80+r.Intn(100), 2+r.Intn(4), 1+r.Intn(2), r.Intn(2)))
 		emit(fmt.Sprintf("dedup burst sf%d %d %d %d %s 0", 30+r.Intn(60), 2+r.Intn(4), r.Intn(2), r.Intn(2), cancel()))
 		emit(fmt.Sprintf("dedup burst hang %d %d %d %s %d", 2+r.Intn(4), r.Intn(3), r.Intn(2), cancel(), r.Intn(2)))
+		emit(fmt.Sprintf("dedup burst stuck %d %d %d - 0", 2+r.Intn(3), 1+r.Intn(2), r.Intn(2)))
 		// expired RFC 9520 failure: the next cohort runs the failure-probe path (regroup, probe limit)
 		emit("dedup shift 2500")
 		emit(fmt.Sprintf("dedup burst sf%d %d %d %d - %d", 40+r.Intn(60), 3+r.Intn(4), 1+r.Intn(2), r.Intn(2), r.Intn(2)))
@@ -281,6 +282,7 @@ func genSys(r *vlib.R, tier string, emit func(string)) {
 		emit("sys wave " + genWave(r, "n", 10))
 		emit("sys shift 2500") // cached failures expire: failure-probe cohorts against the failing zones
 		emit("sys wave " + genWave(r, "n", 10))
+		emit("sys wave " + genWave(r, "n", 10))
 		emit("sys drain")
 		emit("sys new r 0")
 		emit("sys wave " + genWave(r, "r", 10))
@@ -288,12 +290,11 @@ func genSys(r *vlib.R, tier string, emit func(string)) {
 		emit("sys drain")
 		emit("sys new i 0")
 		emit("sys wave " + genWave(r, "i", 12))
+		emit("sys wave " + genWave(r, "i", 12))
 		emit("sys drain")
-		if tier == "thorough" || r.Chance(1, 2) {
-			emit(fmt.Sprintf("sys new n %d", 150+r.Intn(200))) // dedup wait shorter than a failing resolution
-			emit("sys wave " + genWave(r, "n", 10))
-			emit("sys drain")
-		}
+		emit(fmt.Sprintf("sys new n %d", 150+r.Intn(200))) // dedup wait shorter than a failing resolution
+		emit("sys wave " + genWave(r, "n", 10))
+		emit("sys drain")
 	}
 	emit("sys end")
 }
